@@ -6,6 +6,9 @@ package c16
 // Stages of a run
 //   solo         every operation alone: deterministic? deep hash of every
 //                shared cell before/after (tie (i) of DESIGN.md, C16)
+//   frozen       every operation alone on a copy of the environment whose
+//                shared state is mapped read-only: a store into the font
+//                faults even when it is undone before the call returns
 //   all-ops      one goroutine per operation, all at once, under the race
 //                detector: every pair of operations is concurrent in it
 //   pairs        pairs of operations (also an operation with itself)
@@ -79,16 +82,24 @@ func ensureRacer() (string, error) {
 		return "", err
 	}
 	out := filepath.Join(dir, "racer")
+	// several generator processes may run at once (the check starts further
+	// seeds in parallel when the anchored source differs from the baseline):
+	// build under a name of our own, then rename (atomic)
+	tmp := fmt.Sprintf("%s.%d.tmp", out, os.Getpid())
 	t0 := time.Now()
 	ctx, cancel := context.WithTimeout(context.Background(), 10*time.Minute)
 	defer cancel()
-	cmd := exec.CommandContext(ctx, "go", "build", "-race", "-tags", "verif", "-o", out, "./c16/racer")
+	cmd := exec.CommandContext(ctx, "go", "build", "-race", "-tags", "verif", "-o", tmp, "./c16/racer")
 	cmd.Dir = filepath.Join(root, "harness")
 	cmd.Env = goEnv()
 	b, err := cmd.CombinedOutput()
 	racerStats.BuildS = time.Since(t0).Seconds()
 	if err != nil {
+		os.Remove(tmp)
 		return "", fmt.Errorf("building the race-enabled worker failed: %v\n%s", err, b)
+	}
+	if err := os.Rename(tmp, out); err != nil {
+		return "", err
 	}
 	racerBuilt = out
 	return out, nil
@@ -148,8 +159,8 @@ func runRacerW(lines []string, worker int) ([]caseResult, error) {
 	pending := lines
 	t0 := time.Now()
 	for len(pending) > 0 {
-		in := filepath.Join(dir, fmt.Sprintf("racer_in%d.txt", worker))
-		outp := filepath.Join(dir, fmt.Sprintf("racer_out%d.jsonl", worker))
+		in := filepath.Join(dir, fmt.Sprintf("racer_in%d_%d.txt", os.Getpid(), worker))
+		outp := filepath.Join(dir, fmt.Sprintf("racer_out%d_%d.jsonl", os.Getpid(), worker))
 		if err := os.WriteFile(in, []byte(strings.Join(pending, "\n")+"\n"), 0o644); err != nil {
 			return nil, err
 		}
@@ -177,6 +188,8 @@ func runRacerW(lines []string, worker int) ([]caseResult, error) {
 			}
 			f.Close()
 		}
+		os.Remove(in)
+		os.Remove(outp)
 		if len(got) > len(pending) {
 			got = got[:len(pending)]
 		}
@@ -561,11 +574,10 @@ func Gen(run *vlib.Run, seed uint64, tier string) {
 	thorough := tier == "thorough"
 	t0 := time.Now()
 
-	envNames := []string{"rt-cid3", "rt-cid0", "cff-gtab", "cff-sub", "cff-cid", "cff-nonames", "rt-cff",
-		"glyf-gtab", "glyf-sub", "glyf-bi", "glyf-nonames", "rt-glyf"}
+	envNames := QuickEnvNames // the last three are richenv.go: every subtable kind, every slice-typed field with >= 3 distinct elements
 	depEnvs := []string{"cff-gtab", "glyf-sub"}
 	if thorough {
-		envNames = EnvNames
+		envNames = AllEnvNames()
 		depEnvs = []string{"cff-gtab", "cff-sub", "glyf-gtab", "glyf-sub", "cff-cid", "rt-cid3"}
 	}
 	infos := map[string]*envInfo{}
@@ -607,6 +619,66 @@ func Gen(run *vlib.Run, seed uint64, tier string) {
 		}
 	}
 	run.Extra["nondeterministic_alone"] = nondet
+	tSolo := time.Since(t0).Seconds()
+
+	// ---- the rich environments must populate every slice-typed field of every
+	// subtable kind, and every subtable kind of the source tree must be known
+	{
+		var rich []*Env
+		for _, n := range envNames {
+			if isRichEnv(n) && infos[n] != nil {
+				rich = append(rich, infos[n].e)
+			}
+		}
+		gaps, stats := coverageGaps(rich)
+		run.Extra["slice_field_max_distinct_elements"] = stats
+		if len(gaps) > 0 {
+			idx := run.Add("!coverage "+strings.Join(gaps, " "), "(harness-error)", false, "harness-error")
+			run.Fail(idx, "coverage", "the rich environments leave slice-typed fields with fewer than 3 distinct elements: "+strings.Join(gaps, " "), "harness-error")
+		}
+		kinds, kerr := subtableKindsInSource()
+		run.Extra["subtable_kinds_in_source"] = kinds
+		known := knownKindNames()
+		var unknown []string
+		for _, k := range kinds {
+			if !known[k] && !strings.HasPrefix(k, "Verif") && k != "extensionSubtable" {
+				unknown = append(unknown, k)
+			}
+		}
+		if kerr != nil || len(unknown) > 0 {
+			idx := run.Add("!kinds "+strings.Join(unknown, " "), "(harness-error)", false, "harness-error")
+			run.Fail(idx, "kinds", fmt.Sprintf("subtable kinds of the source tree the environments do not cover: %v %v", unknown, kerr), "harness-error")
+		}
+	}
+
+	// ---- stage frozen (in this process): every operation alone on a copy of
+	// the environment whose shared state is mapped read-only; a store into it
+	// faults, whatever is written and whether or not it is undone later
+	frozenStats := map[string]any{}
+	for _, n := range envNames {
+		ei := infos[n]
+		if ei == nil {
+			continue
+		}
+		for _, o := range PropertyOps(ei.e) {
+			for a := 0; a < o.NArg; a++ {
+				if s := ei.solo[opKey{o.Name, a}]; s != nil && s.nondet {
+					continue
+				}
+				th := [][]opInst{{ei.trace(o, a, 0, false)}}
+				c := &caseT{Mode: "frozen", Env: n, Heap: ei.pristine, Threads: th}
+				c.Sched = opLevelSchedule(r, th)
+				cr := execFrozen(c)
+				record(run, pendingCase{c, caseLabels(c, "frozen"), false}, cr)
+			}
+		}
+		if fe := frozenCache[n]; fe != nil && fe.arena != nil {
+			frozenStats[n] = map[string]int{"objects": fe.arena.Objects, "backing_arrays": fe.arena.Slices, "boxes": fe.arena.Boxes,
+				"map_values": fe.arena.MapValues, "bytes": int(fe.arena.off)}
+		}
+	}
+	run.Extra["frozen_envs"] = frozenStats
+	tFrozen := time.Since(t0).Seconds() - tSolo
 	usable := func(ei *envInfo, o *OpSpec, a int) bool {
 		s := ei.solo[opKey{o.Name, a}]
 		return s == nil || !s.nondet
@@ -659,7 +731,11 @@ func Gen(run *vlib.Run, seed uint64, tier string) {
 					d := ei.inferDeps(x.o, x.a)
 					ok := true
 					for _, m := range fields {
-						if d[m] == depPartial {
+						// an operation that keeps a Layouter across calls reads the
+						// layout tables when the Layouter is made, not at every call:
+						// at operation granularity its dependence on a mutated field
+						// is neither "reads it" nor "does not"
+						if d[m] == depPartial || (x.o.Priv && d[m] != depNone) {
 							ok = false
 						}
 					}
@@ -702,7 +778,7 @@ func Gen(run *vlib.Run, seed uint64, tier string) {
 					threads[t] = append(threads[t], ei.trace(opIndex["Set"+mut], r.Intn(3), t, true))
 				} else {
 					x := vlib.Pick(r, oa)
-					if ei.inferDeps(x.o, x.a)[mut] != depPartial {
+					if dm := ei.inferDeps(x.o, x.a)[mut]; dm != depPartial && !(x.o.Priv && dm != depNone) {
 						threads[t] = append(threads[t], ei.trace(x.o, x.a, t, true))
 					}
 				}
@@ -838,6 +914,23 @@ func Gen(run *vlib.Run, seed uint64, tier string) {
 			p := pairs[pi]
 			addConc(ei, [][]opInst{{ei.trace(p[0].o, p[0].a, 0, wd)}, {ei.trace(p[1].o, p[1].a, 1, wd)}}, "pairs")
 		}
+		// rich environments: every pair of the operations that walk the layout
+		// tables (explain, encode, write, apply through a Context, layout
+		// through a Layouter), also each with itself
+		if isRichEnv(n) {
+			names := []string{"ExplainGsub", "ExplainGpos", "EncodeGtab", "Write", "ApplyGsub", "ApplyGpos", "ApplyLists", "Layout", "LayoutOwn", "Clone"}
+			var gt []opArg
+			for _, nm := range names {
+				if o := opIndex[nm]; o != nil && o.Applicable(ei.e) && usable(ei, o, 0) {
+					gt = append(gt, opArg{o, 0})
+				}
+			}
+			for i := range gt {
+				for j := i; j < len(gt); j++ {
+					addConc(ei, [][]opInst{{ei.trace(gt[i].o, gt[i].a, 0, wd)}, {ei.trace(gt[j].o, gt[j].a, 1, wd)}}, "pairs", "gtab-pair")
+				}
+			}
+		}
 		// tuples
 		for k := vlib.Count(tier, 6, 100); k > 0; k-- {
 			nth := r.Range(3, 8)
@@ -965,11 +1058,11 @@ func Gen(run *vlib.Run, seed uint64, tier string) {
 		run.Extra["race_controls"] = map[string]int{"expected": expectedRaces, "reported": reportedOnControls, "reruns": retried}
 	}
 	run.Extra["racer"] = map[string]any{
-		"binary": "work/C16/racer (go build -race -tags verif ./c16/racer, CGO_ENABLED=1)",
+		"binary":    "work/C16/racer (go build -race -tags verif ./c16/racer, CGO_ENABLED=1)",
 		"processes": racerStats.Processes, "cases": racerStats.Cases,
 		"build_s": round1(racerStats.BuildS), "worker_s_summed": round1(racerStats.RunS), "parallel_workers": 3,
 	}
-	run.Extra["stage_wall_s"] = map[string]float64{"solo+seq": round1(tSeq), "total": round1(time.Since(t0).Seconds())}
+	run.Extra["stage_wall_s"] = map[string]float64{"solo": round1(tSolo), "frozen": round1(tFrozen), "solo+frozen+seq": round1(tSeq), "total": round1(time.Since(t0).Seconds())}
 	cells := []string{}
 	for _, cv := range infos[envNames[0]].pristine {
 		cells = append(cells, fmt.Sprintf("%d=%s", cv.Cell, cellName(cv.Cell)))
@@ -988,7 +1081,9 @@ func RunCase(line string) (impl, fail, sig string, err error) {
 		return "", "", "", err
 	}
 	var cr caseResult
-	if c.Mode == "conc" {
+	if c.Mode == "frozen" {
+		cr = execFrozen(c)
+	} else if c.Mode == "conc" {
 		rs, rerr := runRacer([]string{line})
 		if rerr != nil {
 			return "(harness-error)", "the race-enabled worker could not be used: " + rerr.Error(), "harness-error", nil
